@@ -112,6 +112,9 @@ package upstream
 //@ ghost gConnClosed bool
 //@ ghost gDeadlineSet bool
 //@ ghost gDeadline time.Time
+//@ ghost gDeadlineParent context.Context
+//@ ghost gDeadlineCtx context.Context
+//@ ghost gAcceptCtx context.Context
 //@ ghost gAccepted bool
 //@ ghost gAcceptErr error
 
@@ -120,9 +123,12 @@ package upstream
 //@   modifies-all $gConnClosed
 //@   ghost-set gConnClosed = true
 //@ extern context.WithDeadline
-//@   modifies-all $gDeadlineSet $gDeadline
+//@   modifies-all $gDeadlineSet $gDeadline $gDeadlineParent $gDeadlineCtx
 //@   ghost-set gDeadlineSet = true
 //@   ghost-set gDeadline = d
+//@   ghost-set gDeadlineParent = parent
+//@   ghost-set gDeadlineCtx = result0
+//@   ensures[ctx] result0 != nil && result1 != nil
 //@ extern github.com/andydunstall/yamux.DefaultConfig
 //@   ensures[nonnil] result != nil && fresh(result)
 //@ extern github.com/andydunstall/yamux.Server
@@ -131,9 +137,10 @@ package upstream
 //@   modifies-all $gSessClosed
 //@   ghost-set gSessClosed = true
 //@ extern github.com/andydunstall/yamux.(*Session).AcceptStreamWithContext
-//@   modifies-all $gAccepted $gAcceptErr
+//@   modifies-all $gAccepted $gAcceptErr $gAcceptCtx
 //@   ghost-set gAccepted = true
 //@   ghost-set gAcceptErr = result1
+//@   ghost-set gAcceptCtx = ctx
 
 //@ iface (Manager).AddConn
 //@   acquires 10
@@ -165,7 +172,9 @@ package upstream
 //@   ensures[permitted] gUpAdded && gTokOk ==> permitted(unbox(gTok, "*auth.Token"), ep)
 //@   ensures[401] gTokOk && !permitted(unbox(gTok, "*auth.Token"), ep) ==> gWrote && gStatus == 401 && !gUpgraded && !gUpAdded
 //@   ensures[expiry] gUpAdded ==> (gDeadlineSet == (gTokOk && !unbox(gTok, "*auth.Token").Expiry.IsZero())) && (gDeadlineSet ==> gDeadline == unbox(gTok, "*auth.Token").Expiry)
+//@   ensures[server-context] gAccepted ==> gAcceptCtx == (gDeadlineSet ? gDeadlineCtx : s.ctx) && (gDeadlineSet ==> gDeadlineParent == s.ctx)
 //@   loop 1 invariant[continue-only-on-success] gAccepted ==> gAcceptErr == nil
+//@   loop 1 invariant[server-context] (gAccepted ==> gAcceptCtx == (gDeadlineSet ? gDeadlineCtx : s.ctx)) && (gDeadlineSet ==> gDeadlineParent == s.ctx)
 //@   loop 1 invariant[registered] gUpAdded && gTracked && !gUpRemoved && !gUntracked && !gSessClosed && !gConnClosed && gUpgraded
 //@   loop 1 invariant[registered-id] gUpAddedU != nil && gUpAddedU.EndpointID() == ep && !gUpAddedU.Forward() && (gTokOk ==> permitted(unbox(gTok, "*auth.Token"), ep))
 //@   loop 1 invariant[expiry] (gDeadlineSet == (gTokOk && !unbox(gTok, "*auth.Token").Expiry.IsZero())) && (gDeadlineSet ==> gDeadline == unbox(gTok, "*auth.Token").Expiry)
